@@ -106,6 +106,8 @@ def gen_c08(tier, rng):
 
 
 # ---- C07 ----
+BASE_FORMATS = ("%Y-%m-%dT%H:%M:%E*S%E*z", "%Y-%m-%d %H:%M:%S.%E*f %::z", "%s", "%E4Y/%m/%d %H:%M:%E15S %:::z",
+                "%Y week %U day %w %H:%M:%E*S %E*z", "%Y-W%W-%u %H:%M:%E*S %E*z")
 SEPS = ["-", "/", ":", "T", " ", "_", ".", ",", ""]
 
 
@@ -165,8 +167,20 @@ def gen_c07(tier, rng):
         for f in ("%Y-%m-%dT%H:%M:%E*S%E*z", "%Y-%m-%d %H:%M:%S.%E*f %::z", "%s", "%E4Y/%m/%d %H:%M:%E15S %:::z",
                   "%Y week %U day %w %H:%M:%E*S %E*z", "%Y-W%W-%u %H:%M:%E*S %E*z",
                   "%A, %d %B %Y %H:%M:%E*S %E*z", "%a %b %d %H:%M:%E15S %Y %::z",
-                  "%Y-%m-%e %H:%M:%E*S%E*z", "%e.%m.%Y %H:%M:%E*S %E*z", "%Y/%m/%e-%H:%M:%E*S %::z"):
-            for t in ts:
+                  "%Y-%m-%e %H:%M:%E*S%E*z", "%e.%m.%Y %H:%M:%E*S %E*z", "%Y/%m/%e-%H:%M:%E*S %::z",
+                  # a strftime-delegated (locale-name) field pending right before each kind of library specifier: the flush
+                  # of the pending run happens in a different branch of format() for each of them
+                  "%Y-%m-%d %H:%M:%E*S %a %E*z", "%d %H:%M:%E*S %Y %B %E*z", "%Y-%m-%d %H:%M:%E*S %A (%E*z)",
+                  "%Y-%m-%d %H:%M:%E*S %a%::z", "%m-%d %a%E4Y %H:%M:%E*S %E*z",
+                  "%Y-%m-%d %A%ET%H:%M:%E*S %E*z", "%Y-%m-%d %H:%M:%a%E*S %E*z", "%Y-%m-%d %H:%M:%S %b%E15f %E*z",
+                  "%Y-%m-%d %H:%M:%b%E18S %E*z", "%Y-%m-%d %a%H:%M:%E*S %A%:::z", "%a%Y-%b-%d %H:%M:%E*S %h%E*z",
+                  # finding F15 (one format per family): a lossy item AFTER the lossless one it duplicates - tagged by the
+                  # driver from the executable side condition last_writer_ok_x, reported as KNOWN-FINDING
+                  "%Y-%m-%d %U %H:%M:%E*S%E*z", "%Y-%m-%d %H:%M:%E*S %E3f %E*z", "%Y-%m-%d %H:%M:%E*S %E*z %z",
+                  "%Y %E4Y-%m-%d %H:%M:%E*S %E*z", "%Y %E0f %m-%d %H:%M:%E*S%E*z",
+                  # ... and their harmless twins (the lossless item comes last): must round-trip
+                  "%U %Y-%m-%d %H:%M:%E*S%E*z", "%Y-%m-%d %H:%M:%E3f %E*S %E*z", "%Y-%m-%d %H:%M:%E*S %z %E*z"):
+            for t in (ts if (tier != "quick" or f in BASE_FORMATS) else rng.sample(ts, min(len(ts), 5))):
                 cases.append("fp %s %s %d %d%s" % (zid, hx(f), t, rng.choice(FS), pz()))
             # the two ends of the range with every kind of parse zone (parse()'s overflow checks consult a zone)
             for t in (I64_MAX, I64_MIN, I64_MAX - 1, I64_MIN + 1):
@@ -302,6 +316,12 @@ def gen_c09(tier, rng):
             if suffix.endswith("x"):
                 exp = "REJ"            # trailing garbage after the last field
         cases.append(("parse %s %s %s %s" % (zid, hx(fmt), hx(inp), exp)).rstrip())
+    # %s: "if we saw %s then we ignore anything else" - but the whole input must still match the format
+    for fm, pre, post in (("%s", "", ""), ("at %s!", "at ", "!"), ("%Y %s", "2013 ", ""), ("%s %H", "", " 07"), ("%H:%M %s", "23:59 ", "")):
+        for v in (0, 1234567890, -1, I64_MAX, I64_MIN, 253402300800):
+            for suffix, ok in (("", True), (" ", True), ("\n", True), ("x", False), (" junk", False), (".5", False), ("0x", False), (" 1", False)):
+                inp = pre + str(v) + post + suffix
+                cases.append("parse %s %s %s %s" % (rng.choice(ids), hx(fm), hx(inp), ("EXP %d 0" % v) if ok else "REJ"))
     # %e: exactly what format() renders (a blank and one digit, or two digits) and its near misses
     for inp, exp in (("2024-03- 9", "CIV 2024 3 9 0 0 0 0"), ("2024-03-19", "CIV 2024 3 19 0 0 0 0"), ("2024-03-9", "CIV 2024 3 9 0 0 0 0"),
                      ("2024-03- 0", "REJ"), ("2024-03-  9", "REJ"), ("2024-03- 19", "REJ"), ("2024-03- x", "REJ"), ("2024-03- ", "REJ")):
